@@ -1,5 +1,7 @@
 import HavocVerif.Driver.C02
 import HavocVerif.Driver.C03
+import HavocVerif.Driver.C04
+import HavocVerif.Driver.C05
 /-
   Line-protocol driver.  `driver <property> < ops.txt` prints one verdict per
   input line, prefixed with the 1-based line number.  A line `reset` starts a
@@ -18,6 +20,8 @@ def stepperFor (prop : String) : Option Stepper :=
   match prop with
   | "C02" => some ⟨DriverC02.St, {}, DriverC02.step⟩
   | "C03" => some (stateless DriverC03.step)
+  | "C04" => some ⟨DriverC04.St, {}, DriverC04.step⟩
+  | "C05" => some ⟨DriverC05.St, {}, DriverC05.step⟩
   | _ => none
 
 partial def loop (h : IO.FS.Stream) (out : IO.FS.Stream) (S : Stepper) (st : S.σ) (n : Nat) : IO Unit := do
